@@ -382,4 +382,40 @@ theorem docs_length (o : Opts) (es : List EDS) : es.length ≤ (es.flatMap (toks
     simp only [List.flatMap_cons, List.length_append, List.length_cons, htr]
     omega
 
+/-! ### JSON: the decoded graph is a fixed point of the dictionary round trip -/
+
+theorem viewJNode_idem (p l : Bool) (n : Node) : viewJNode p l (viewJNode p l n) = viewJNode p l n := by
+  cases p <;> cases l <;> simp [viewJNode, Lnk.cfrom, Lnk.cto]
+
+theorem fromDict_toDict_fixed (p l : Bool) (e : EDS) (h : e.ids.Nodup) :
+    fromDict (toDict p l (fromDict (toDict p l e))) = fromDict (toDict p l e) := by
+  have h1 := fromDict_toDict p l e h
+  have hperm : (sortStable spanLt (e.nodes.map (viewJNode p l))).Perm (e.nodes.map (viewJNode p l)) :=
+    sortStable_perm _ _
+  have hids : (fromDict (toDict p l e)).ids.Nodup := by
+    rw [h1]
+    simp only [EDS.ids]
+    have hp := hperm.map (fun n : Node => n.id)
+    rw [hp.nodup_iff]
+    have : (e.nodes.map (viewJNode p l)).map (fun n => n.id) = e.ids := by
+      simp only [EDS.ids, List.map_map]
+      apply List.map_congr_left
+      intro n _
+      rfl
+    rw [this]
+    exact h
+  rw [fromDict_toDict p l _ hids]
+  rw [h1]
+  simp only
+  have hmap : (sortStable spanLt (e.nodes.map (viewJNode p l))).map (viewJNode p l)
+      = sortStable spanLt (e.nodes.map (viewJNode p l)) := by
+    conv => rhs; rw [← List.map_id (sortStable spanLt (e.nodes.map (viewJNode p l)))]
+    apply List.map_congr_left
+    intro m hm
+    rw [mem_sortStable] at hm
+    obtain ⟨n, _, rfl⟩ := List.mem_map.1 hm
+    simp [viewJNode_idem]
+  rw [hmap]
+  rw [sortStable_of_sorted spanLt _ (sortStable_sorted spanLt spanLt_trans spanLt_asymm _)]
+
 end Verif.C03
